@@ -289,6 +289,10 @@ def monitor(case, res, shared):
             return ('derived-node-count-does-not-cover-the-pilot',
                     '%d nodes of %d usable cores / %d usable GPUs for a pilot of %d cores / %d GPUs'
                     % (res['requested_nodes'], res['cores_per_node'], res['gpus_per_node'], cfg['cores'], cfg['gpus']))
+    if case['kind'] == 'fork' and not cfg['agent_nodes'] and not cfg['service_nodes'] and len(nl) != res['requested_nodes']:
+        # (every node of a FORK pilot is the local host: with backup nodes all of them are probed, and all answer alike)
+        return ('fewer-nodes-than-requested-on-the-local-host', '%d nodes offered, %d requested (%d backup nodes)'
+                % (len(nl), res['requested_nodes'], cfg['backup']))
     idx = [n[1] for n in nl + al + sl]
     if len(set(idx)) != len(idx):
         return ('duplicate-node-index', str(idx))
